@@ -172,6 +172,37 @@ def virtVal (cx : Ctx) (t : Table) (r : Row) (c : Column) : Option Val :=
     some (.i (if st == 2 then 4 else st))
   | "has_long_plugin_output" => some (.i (if r.str t "long_plugin_output" != "" then 1 else 0))
   | "total_services" => some (.i (r.int "num_services"))
+  | "members_with_state" =>
+    -- `VirtualColMembersWithState`: every member with the state of the object of that name; a member that is not found
+    -- leaves its slot empty (null)
+    let num := fun (x : Int) => Json.num ⟨x, 0⟩
+    if t.name == "hostgroups" then
+      let ht := cx.table "hosts"
+      some (.jl ((r.strList "members").map fun n =>
+        match (b.rows "hosts").reverse.find? (fun h => h.str ht "name" == n) with
+        | some h => Json.arr #[.str n, num (h.int "state"), num (h.int "has_been_checked")]
+        | none => Json.null))
+    else if t.name == "servicegroups" then
+      let st := cx.table "services"
+      let members := match r.cell? "members" with | some (.ml ms) => ms | _ => []
+      some (.jl (members.map fun (hn, d) =>
+        match (b.rows "services").reverse.find? (fun x => x.str st "host_name" == hn && x.str st "description" == d) with
+        | some x => Json.arr #[.str hn, .str d, num (x.int "state"), num (x.int "has_been_checked")]
+        | none => Json.null))
+    else none
+  | "services_with_state" | "services_with_info" =>
+    -- `VirtualColServicesWithInfo` (hosts): the services named in the host's `services` list
+    let num := fun (x : Int) => Json.num ⟨x, 0⟩
+    if t.name == "hosts" then
+      let st := cx.table "services"
+      let hn := r.str t "name"
+      some (.jl ((r.strList "services").map fun d =>
+        match (b.rows "services").reverse.find? (fun x => x.str st "host_name" == hn && x.str st "description" == d) with
+        | some x =>
+          let base := #[Json.str d, num (x.int "state"), num (x.int "has_been_checked")]
+          Json.arr (if c.name == "services_with_info" then base.push (.str (x.str st "plugin_output")) else base)
+        | none => Json.null))
+    else none
   | _ =>
     if t.virt == .backends then
       match key with
